@@ -71,6 +71,7 @@ type World struct {
 	Handles   map[int]any       // cid -> *atree.Array | *atree.OrderedMap (latest lineage)
 
 	armed         *Armed
+	Disposed      []RegID // root slab ids of containers the driver disposed of (probe.removed looks them up)
 	viaIter       map[int]bool // children whose next handle is obtained by mutable iteration
 	BeforeStep    func(w *World, st *Step)
 	commitJournal map[RegID][]byte // registers before the current commit attempt (mid-commit crash rollback)
@@ -511,6 +512,7 @@ func (w *World) detached(old MVal, s atree.Storable, keep bool) *Violation {
 		w.Model.unregister(ch)
 		ch.Parent = nil
 		w.Stats.Inc("child.disposed")
+		w.noteDisposed(ch)
 	}
 	if err := w.disposeStorable(s); err != nil {
 		return w.viol("dispose", "disposing a returned value failed: %v", err)
@@ -579,5 +581,15 @@ func (w *World) childByIteration(ph any, c *MCont, idx int, key MVal) (atree.Val
 		if i == idx {
 			return v, nil
 		}
+	}
+}
+
+func (w *World) noteDisposed(c *MCont) {
+	if c.Volatile {
+		return
+	}
+	w.Disposed = append(w.Disposed, c.VID)
+	if len(w.Disposed) > 64 {
+		w.Disposed = w.Disposed[len(w.Disposed)-64:]
 	}
 }
